@@ -53,6 +53,15 @@ fn content_bytes(run_tag: u64, c: u8) -> Vec<u8> {
         // The empty string is a legitimate content too (shared by all runs).
         return Vec::new();
     }
+    // Two 8-byte contents whose BLAKE3 digests agree in their first 64 bits
+    // (ce6862b83a72a154...): distinct contents that an intern table keyed by a
+    // truncated digest would confuse. Shared by all runs, like the empty string.
+    if c == 3 {
+        return vec![109, 80, 45, 240, 223, 150, 29, 212];
+    }
+    if c == 4 {
+        return vec![218, 208, 132, 116, 239, 44, 9, 208];
+    }
     let mut v = format!("rbxsim:{:016x}:{}", run_tag, c).into_bytes();
     // Vary lengths a little: content 1 is long.
     if c == 1 {
@@ -88,7 +97,8 @@ impl SchedSim {
         // Thorough tier: one run in eight is a long random multi-thread run.
         let long = thorough && r.chance(1, 8);
         let n_threads = if long { r.range(3, 5) } else { r.range(2, 4) } as usize;
-        let alphabet = r.range(1, 3) as u8;
+        // One run in six uses the colliding pair plus one ordinary content.
+        let palette: Vec<u8> = if r.chance(1, 6) { vec![3, 4, r.below(3) as u8] } else { (0..r.range(1, 3) as u8).collect() };
         let mut threads = Vec::new();
         for _ in 0..n_threads {
             let n_ops = if long { r.range(10, 30) } else { r.range(2, 8) } as usize;
@@ -101,7 +111,7 @@ impl SchedSim {
                 match r.weighted(&w) {
                     0 => {
                         let slot = r.below(SLOTS as u64) as u8;
-                        ops.push(Op::New { c: r.below(alphabet as u64) as u8, slot });
+                        ops.push(Op::New { c: *r.pick(&palette), slot });
                         filled[slot as usize] = true;
                     }
                     1 => {
@@ -170,6 +180,11 @@ impl SchedSim {
     fn exec(&self, t: &SchedTrace, ctx: &mut RunCtx) {
         let run_tag = crate::prng::derive(t.sched_seed, 0x7461 ^ ctx.evals);
         let reg: Arc<Mutex<Registry>> = Arc::new(Mutex::new(Registry::default()));
+        // The table is never empty (the reflection database keeps a SharedString alive
+        // for the whole process), so its storage would otherwise carry capacity and
+        // tombstones from one run to the next. Hook H2d rebuilds it at minimal capacity:
+        // the layout that code iterating the table sees is a function of this run alone.
+        rbx_types::verif_string_cache_compact();
         let baseline_len = rbx_types::verif_string_cache_len();
         if t.kind == "uid" {
             crate::env::reset_uid_env(t.sched_seed, t.clock.clone(), t.rng.clone());
